@@ -555,6 +555,18 @@ func (n *Node) Receive(p *Payload) {
 		}
 	}
 	n.api("OnReceive", p, func() { n.d.OnReceive(p) })
+	if n.earlierLife && !n.crashed && n.d != nil {
+		if p.srcNode != n.id {
+			n.noteEarlierLife(p)
+		}
+		if rm, ok := p.body.(*recMsg); ok {
+			for _, e := range rm.payloads {
+				if e.srcNode != n.id {
+					n.noteEarlierLife(e)
+				}
+			}
+		}
+	}
 	n.flush()
 }
 
